@@ -17,4 +17,16 @@ out = ["# Seeded changes", "",
        "the patch is applied to /repo, the quick check of each property it breaks is run, /repo is restored.", "",
        "| seed | breaks | change | needs | detection (quick tier) |", "|---|---|---|---|---|"] + rows + [""]
 open(os.path.join(V, 'seeded', 'README.md'), 'w').write('\n'.join(out))
+# compact table for DESIGN.md section 7
+comp = ["| seed | breaks | change (short) | caught by (quick tier) |", "|---|---|---|---|"]
+for f in sorted(glob.glob(os.path.join(V, 'seeded', '*', 'meta.json'))):
+    m = json.load(open(f))
+    det = []
+    for p, d in sorted(m.get('detection', {}).items()):
+        det.append("%s %s" % (p, 'caught' if d['caught'] else ('MISSED' if d['exit'] == 0 else ('timed out' if d['exit'] == 124 else 'inconclusive'))))
+    comp.append("| %s | %s | %s | %s |" % (m['id'], ', '.join(m['breaks']), m['change'].replace('|', '\\|')[:110], '; '.join(det) or 'not run'))
+dp = os.path.join(V, 'DESIGN.md')
+ds = open(dp).read()
+a, b = ds.index('<!-- SEEDS-BEGIN -->') + len('<!-- SEEDS-BEGIN -->'), ds.index('<!-- SEEDS-END -->')
+open(dp, 'w').write(ds[:a] + '\n' + '\n'.join(comp) + '\n' + ds[b:])
 print(len(rows), "seeds")
